@@ -362,6 +362,38 @@ def check_index_list_reader(idx: Index, rep: Report) -> None:
                     r.ok(f"{f.fq}->{e.name}", f"{e.module.relpath}:{c.lineno} `{unparse(c)}` accepts negative entries ({users[nm]} call sites of {nm})")
 
 
+def check_default_inference(idx: Index, rep: Report) -> None:
+    """The printer elides a property / attribute that equals its declared default (C05.R4).  After parsing, the
+    constraint variables that such an entry binds must therefore be resolved from the default when the entry is
+    absent, for properties and attributes alike."""
+    r = rep.rule("C05.R8", "constraint-variable resolution after parsing reads an absent property / attribute from its declared default (the printer elides defaults)", floor=2)
+    f = idx.func(DAF, "FormatProgram.resolve_constraint_variables")
+    cfg = CFG(f.node)
+    seen = set()
+    for lp in walk_local(f.node):
+        if not (isinstance(lp, ast.For) and isinstance(lp.iter, ast.Call) and call_attr(lp.iter) == "items" and isinstance(lp.target, ast.Tuple) and len(lp.target.elts) == 2):
+            continue
+        src = unparse(lp.iter.func.value)  # type: ignore[attr-defined]
+        m = re.fullmatch(r"\w+\.(properties|attributes)", src)
+        if not m:
+            continue
+        kind = m.group(1)
+        name, d = unparse(lp.target.elts[0]), unparse(lp.target.elts[1])
+        ver = [c for c in calls_in(lp) if call_attr(c) == "verify" and isinstance(c.func, ast.Attribute) and unparse(c.func.value) == f"{d}.constr" and c.args]
+        if not ver:
+            continue
+        seen.add(kind)
+        for c in ver:
+            txt = resolved_text(cfg, c.args[0], cfg.node_of(c))
+            inst = f"{f.fq}:{kind}"
+            if f"state.{kind}" in txt and f"{d}.default_value" in txt:
+                r.ok(inst, f"{f.module.relpath}:{c.lineno} `{txt[:80]}`")
+            else:
+                r.fail(inst, Finding("C05.R8", f.fq, f"default-not-inferred:{kind}", f"the {kind} loop verifies `{txt[:80]}`, which does not fall back to `{d}.default_value`: an entry equal to its default is elided by the printer, so on re-parsing the constraint variable it binds stays unresolved and the types inferred from it cannot be built", f"{f.module.relpath}:{c.lineno}"))
+    if seen != {"properties", "attributes"}:
+        raise AnalysisError(f"{f.fq}: loops verifying the parsed properties and attributes against their definitions not found (found {sorted(seen)})")
+
+
 def check(idx: Index, rep: Report, tier: str) -> str:
     rep.run(check_directive_pairs, idx, rep)
     rep.run(check_op_pairs, idx, rep, tier)
@@ -371,6 +403,7 @@ def check(idx: Index, rep: Report, tier: str) -> str:
     rep.run(check_immutability, idx, rep)
     rep.run(check_alignment, idx, rep)
     rep.run(check_index_list_reader, idx, rep)
+    rep.run(check_default_inference, idx, rep)
     return (
         "Pairing / sibling-agreement rules over the declarative format engine and every hand-written operation format: "
         "parse+print pairing, consumed-input polarity of all parse implementations, set_empty discipline of optional groups, "
